@@ -50,6 +50,20 @@ var targetAddrs = []string{"", "tcp://10.0.0.5:8080", "udp://192.168.1.9:53", "b
 const fixedCode = "vrf-c06-001"
 const preTarget = int64(999999)
 
+// spellings of the code a request may use (index 0 = exactly the generated string)
+var spellings = []func(string) string{
+	func(c string) string { return c },
+	func(c string) string {
+		if u := strings.ToUpper(c); u != c {
+			return u
+		}
+		return c + "\t" // a generated code without letters: upper case would be the same string
+	},
+	func(c string) string { return c + " " },
+	func(c string) string { return " " + strings.ToUpper(c[:1]) + c[1:] },
+	func(c string) string { return "zz" + c },
+}
+
 func idxOf(tab []string, s string) int {
 	for i, x := range tab {
 		if x == s {
@@ -65,6 +79,7 @@ var errInjected = errors.New("verif: injected storage failure")
 
 type thread struct {
 	id       int
+	spell    int
 	kind     string
 	listener int64
 	laddr    int
@@ -258,6 +273,7 @@ type tspec struct {
 	listener int64
 	laddr    int
 	fault    string
+	spell    int
 }
 
 type caseSpec struct {
@@ -348,6 +364,14 @@ func parseCase(line string) (caseSpec, error) {
 	}
 	for k := 0; k < n; k++ {
 		ts := tspec{kind: next()}
+		// kind letter, optionally followed by the spelling number of the code in the request ("a", "r2", …)
+		if len(ts.kind) > 1 {
+			sp, err := strconv.Atoi(ts.kind[1:])
+			if err != nil || sp < 0 || sp >= len(spellings) {
+				return s, bad
+			}
+			ts.spell, ts.kind = sp, ts.kind[:1]
+		}
 		ts.listener, ts.laddr = num(), int(num())
 		ts.fault = next()
 		if ts.kind != "a" && ts.kind != "r" || ts.fault == "" {
@@ -497,7 +521,7 @@ func runCaseT(s caseSpec, scale int, thsOut *[]*thread) (obs string, skip string
 
 	ths := make([]*thread, len(s.ths))
 	for i, ts := range s.ths {
-		ths[i] = &thread{id: i, kind: ts.kind, listener: ts.listener, laddr: ts.laddr, fault: ts.fault, fine: s.fine,
+		ths[i] = &thread{id: i, spell: ts.spell, kind: ts.kind, listener: ts.listener, laddr: ts.laddr, fault: ts.fault, fine: s.fine,
 			grant: make(chan struct{}), report: make(chan string, 1), occ: map[string]int{}, c: c}
 	}
 	*thsOut = ths
@@ -533,7 +557,7 @@ func runCaseT(s caseSpec, scale int, thsOut *[]*thread) (obs string, skip string
 		if th.fine {
 			th.tokens = 0
 		}
-		code := e.code
+		code := spellings[th.spell](e.code)
 		go func() {
 			defer func() {
 				if r := recover(); r != nil {
